@@ -119,7 +119,66 @@ func runMapping(c *kit.Ctx, now int64, reason v1.DisruptionReason, pools []jPool
 		caseM{"mapping", now, string(reason), pools, nodes, m}, key)
 }
 
+// boundaryPool builds a pool whose percentage budget sits at a round-up boundary: pct% of the n
+// initialized nodes is (almost) exactly k, so that one more node in the percentage base makes the
+// ceiling jump to k+1. On top of the n initialized nodes it has `extra` nodes that must NOT be
+// part of the base: registered and Ready but not initialized, instance-terminating, unmanaged.
+func boundaryPool(pct, k, extra, dis int, kind string) (jPool, []jNode, bool) {
+	n := k * 100 / pct // largest n with pct*n <= 100k
+	if n < 1 || n > 30 {
+		return jPool{}, nil, false
+	}
+	p := jPool{ID: 1, Name: poolName(1), Budgets: []jBudget{{Nodes: fmt.Sprintf("%d%%", pct)}}}
+	var nodes []jNode
+	for i := 1; i <= n; i++ {
+		nodes = append(nodes, jNode{ID: i, Pool: 1, Managed: true, HasNode: true, Init: true, Ready: "True", Marked: i <= dis})
+	}
+	for j := 0; j < extra; j++ {
+		x := jNode{ID: 100 + j, Pool: 1, Managed: true, HasNode: true, Init: true, Ready: "True"}
+		switch kind {
+		case "ready-uninitialized":
+			x.Init = false
+		case "instance-terminating":
+			x.Term = true
+		case "unmanaged":
+			x.Managed = false
+		case "claim-without-node":
+			x.HasNode = false
+		}
+		nodes = append(nodes, x)
+	}
+	return p, nodes, true
+}
+
+func partMappingBoundary(c *kit.Ctx) {
+	pcts := []int{10, 20, 25, 34, 50}
+	kinds := []string{"ready-uninitialized", "instance-terminating", "unmanaged", "claim-without-node"}
+	if c.Thorough() {
+		pcts = []int{5, 10, 15, 20, 25, 33, 34, 50, 75}
+	}
+	for _, pct := range pcts {
+		for k := 1; k <= 3; k++ {
+			for ki, kind := range kinds {
+				for extra := 1; extra <= 2; extra++ {
+					for dis := 0; dis <= 1; dis++ {
+						if !c.Thorough() && (k+ki+extra+dis)%2 == 1 && kind != "ready-uninitialized" {
+							continue
+						}
+						p, nodes, ok := boundaryPool(pct, k, extra, dis, kind)
+						if !ok {
+							continue
+						}
+						c.Count("M:boundary:" + kind)
+						runMapping(c, baseTimes[0].UnixNano(), reasonNames[(k+extra+dis)%3], []jPool{p}, nodes)
+					}
+				}
+			}
+		}
+	}
+}
+
 func partMapping(c *kit.Ctx) {
+	partMappingBoundary(c)
 	n := 60
 	if c.Thorough() {
 		n = 300
